@@ -77,7 +77,9 @@ ImportPath(s, pr, q, k) ==
   ELSE LET i == ModByPath(pr, SubSeq(q, 1, k))
        IN IF i = 0 THEN s
           ELSE LET s1 == ExecMod(s, pr, i)
-                   s2 == IF k > 1 /\ ModByPath(pr, SubSeq(q, 1, k - 1)) # 0
+                   \* the sub-module becomes an attribute of its package when ITS import completes: a module found in sys.modules
+                   \* while it is still being executed (import cycle) is returned as it is, the attribute is not set yet
+                   s2 == IF k > 1 /\ ModByPath(pr, SubSeq(q, 1, k - 1)) # 0 /\ i \notin s.done
                            THEN Bind(s1, ModKey(ModByPath(pr, SubSeq(q, 1, k - 1))), q[k], ModVal(i)) ELSE s1
                IN ImportPath(s2, pr, q, k + 1)
 
